@@ -39,53 +39,57 @@ Theorem C06_digest_faithful :
 Proof. exact digest_faithful. Qed.
 Print Assumptions C06_digest_faithful.
 
-(* File outputs.  The unguarded statement
-     forall content exec dest, file_load (file_write (content, exec)) dest = Done (File content exec)
-   is false of the faithful model (two refutations below).  Strongest true version: the restore
-   succeeds iff no directory sits at the path (file_restore_possible; a missing parent directory
-   is created), and then the exec bit is the one the path had before -- never the cached
-   one (file_restore_exec dest = exec is the guard under which the round trip is exact). *)
+(* File outputs.  Content AND executable bit are restored (FileOutput.is_executable is recorded by
+   Write and applied by Load since the repair of C06-F1), from every prior state of the path --
+   absent, parent directory absent, the same file, a modified / truncated file, either exec bit --
+   except one class: a directory sitting at the path (file_restore_possible dest = false, C06-F3:
+   FileOutputHandler.Load does not clear the path; refutation and exactness of the guard below).
+   cas_sound as for directories. *)
 Theorem C06_file_roundtrip_partial :
   forall (H : str -> str), (forall x y, H x = H y -> x = y) ->
   forall c x st dest,
     cas_sound H st ->
     file_restore_possible dest = true ->
-    file_restore_exec dest = x ->
-    let '(st', d) := file_write H c x st in
-    file_load H d st' dest = Done (File c x).
-Proof. exact file_roundtrip_guarded. Qed.
+    let '(st', m) := file_write H c x st in
+    file_load H m st' dest = Done (File c x).
+Proof. exact file_roundtrip. Qed.
 Print Assumptions C06_file_roundtrip_partial.
 
-(* the bytes always come back (modified, truncated, absent, identical prior content alike) *)
-Theorem C06_file_content_restored :
-  forall (H : str -> str), (forall x y, H x = H y -> x = y) ->
-  forall c x st dest,
-    cas_sound H st -> file_restore_possible dest = true ->
-    let '(st', d) := file_write H c x st in
-    file_load H d st' dest = Done (File c (file_restore_exec dest)).
-Proof. exact file_content_restored. Qed.
-Print Assumptions C06_file_content_restored.
+(* the guard is exact: in the excluded class the restore fails (it never restores something else) *)
+Theorem C06_file_restore_impossible :
+  forall (H : str -> str) c x st dest,
+    file_restore_possible dest = false ->
+    let '(st', m) := file_write H c x st in
+    file_load H m st' dest = Error.
+Proof. exact file_restore_impossible. Qed.
+Print Assumptions C06_file_restore_impossible.
 
-Theorem C06_file_roundtrip_refuted_exec :
-  exists c x st dest,
-    let '(st', d) := file_write Hid c x st in
-    file_load Hid d st' dest <> Done (File c x) /\ file_load Hid d st' dest = Done (File c false) /\
-    x = true /\ dest = DAbsent.
-Proof. exact file_roundtrip_refuted_exec. Qed.
-Print Assumptions C06_file_roundtrip_refuted_exec.
+(* concrete instances (the witness that used to refute the round trip, C06-F1): a cached executable comes
+   back executable into an absent path, an absent parent, over a non-executable file with the same and
+   with other content; a cached non-executable file loses the exec bit of the file it replaces *)
+Theorem C06_file_roundtrip_exec_witness :
+  let '(st', m) := file_write Hid (s1 "x") true [] in
+  file_load Hid m st' DAbsent = Done (File (s1 "x") true) /\
+  file_load Hid m st' DParentAbsent = Done (File (s1 "x") true) /\
+  file_load Hid m st' (DFile (s1 "x") false) = Done (File (s1 "x") true) /\
+  file_load Hid m st' (DFile (s1 "y") false) = Done (File (s1 "x") true) /\
+  (let '(st2, m2) := file_write Hid (s1 "x") false [] in
+   file_load Hid m2 st2 (DFile (s1 "x") true) = Done (File (s1 "x") false)).
+Proof. exact file_roundtrip_exec_witness. Qed.
+Print Assumptions C06_file_roundtrip_exec_witness.
 
 (* a missing parent directory is created (fixed upstream in bb649a3; it used to be a second refutation) *)
 Theorem C06_file_roundtrip_parent_absent :
-  forall c st, cas_sound Hid st ->
-    let '(st', d) := file_write Hid c false st in
-    file_load Hid d st' DParentAbsent = Done (File c false).
+  forall c x st, cas_sound Hid st ->
+    let '(st', m) := file_write Hid c x st in
+    file_load Hid m st' DParentAbsent = Done (File c x).
 Proof. exact file_roundtrip_parent_absent. Qed.
 Print Assumptions C06_file_roundtrip_parent_absent.
 
 Theorem C06_file_roundtrip_refuted_directory :
   exists c x st,
-    let '(st', d) := file_write Hid c x st in
-    file_load Hid d st' (DDir []) = Error.
+    let '(st', m) := file_write Hid c x st in
+    file_load Hid m st' (DDir []) = Error.
 Proof. exact file_roundtrip_refuted_directory. Qed.
 Print Assumptions C06_file_roundtrip_refuted_directory.
 
